@@ -186,6 +186,8 @@ def run(ctx):
                     sorted(o_msg)[:3], sorted(o_sig)[:3], sorted(o_cert)[:3], sorted(o_ev)[:3]), rf.loc())
         if not vk:
             R.violation('b', 'R5', 'KeyRegWrapper::register: KES check call exists', 'register:kes-call', 'no verify_kes_signature call', rf.loc())
+        else:
+            R.ok('b', 'R5', 'KeyRegWrapper::register: KES check call exists', '%d site(s)' % len(vk), rf.loc())
         vks = ctx.try_fn('b', '*KeyRegWrapper::verify_kes_signature')
         if vks is not None:
             ctx.r1('b', '*KeyRegWrapper::verify_kes_signature', Sink('KesVerifier::verify', kes_trait, 'ok'))
